@@ -61,6 +61,8 @@ def install(E):
             return [(P, I(len(c)))]
         if isinstance(x, SeqStr):
             return [(P, Num(z3.Length(x.t), True))]
+        if isinstance(x, Opaque) and x.tag == "udfields":
+            return [(P, E.uni_len(E, P, x))]
         raise Unsupported("len(%r)" % (x,))
 
     @reg("abs", True)
@@ -138,6 +140,8 @@ def install(E):
 
     @reg("int", True)
     def _int(E, P, ctx, x, base=None):
+        if isinstance(x, Opaque) and x.tag == "udfield" and base is not None and E.cint(base) == 16:
+            return E.uni_int16(E, P, ctx, x)
         if isinstance(x, Str):
             if base is None or E.cint(base) != 16:
                 raise Unsupported("int(str) only for base 16")
@@ -382,6 +386,8 @@ def install(E):
     def _tuple(E, P, ctx, it=None):
         if it is None:
             return [(P, Tup(()))]
+        if isinstance(it, SList):
+            return [(P, it)]       # tuple(seq) of a symbolic-length sequence that is never mutated afterwards: the same sequence
         items = E.iter_items(P, it)
         if items is None:
             raise Unsupported("tuple() of symbolic-length iterable")
@@ -871,3 +877,5 @@ def install(E):
     E.builtin_names = set(E.builtin_names) | names | {"old", "forall", "exists", "result"}
     from . import models_dt
     models_dt.install(E)
+    from . import models_uni
+    models_uni.install(E)
